@@ -563,3 +563,169 @@ Proof.
     (leqb_eq block_eqb block_eqb_eq).
   split; [intros [[[-> ->] ->] ->]; reflexivity|intros [= -> -> -> ->]; auto].
 Qed.
+
+(* ---- parse_binary never runs out of the fuel it gives its loops ---- *)
+
+Lemma read_items_le {A} (rd : list N -> fres (A * list N)) :
+  (forall s x s1, rd s = FOk (x, s1) -> (length s1 <= length s)%nat) ->
+  forall fuel count s xs s2, read_items fuel count rd s = FOk (xs, s2) -> (length s2 <= length s)%nat.
+Proof.
+  intros Hle. induction fuel as [|f IH]; intros count s xs s2; cbn [read_items].
+  - destruct (count =? 0); [|discriminate]. intros [= _ <-]. lia.
+  - destruct (count =? 0); [intros [= _ <-]; lia|].
+    destruct (rd s) as [[x s1]| | |] eqn:E; try discriminate.
+    destruct (read_items f (count - 1) rd s1) as [[xs' s2']| | |] eqn:E2; try discriminate.
+    intros [= _ <-]. apply Hle in E. apply IH in E2. lia.
+Qed.
+
+Lemma read_bytes_consumes le n s v r :
+  read_bytes le n s = FOk (v, r) -> length s = (n + length r)%nat.
+Proof.
+  unfold read_bytes. destruct (take n s) as [[b r']|] eqn:E; [|discriminate].
+  intros [= _ <-]. apply take_length in E as [-> Hl]. rewrite app_length. lia.
+Qed.
+
+Lemma read_sint_consumes le n s v r :
+  read_sint le n s = FOk (v, r) -> length s = (n + length r)%nat.
+Proof.
+  unfold read_sint. destruct (read_bytes le n s) as [[v' r']| | |] eqn:E; try discriminate.
+  intros [= _ <-]. now apply read_bytes_consumes in E.
+Qed.
+
+Lemma read_float_consumes le n s v r :
+  read_float le n s = FOk (v, r) -> length s = (n + length r)%nat.
+Proof.
+  unfold read_float. destruct (read_bytes le n s) as [[v' r']| | |] eqn:E; try discriminate.
+  intros [= _ <-]. now apply read_bytes_consumes in E.
+Qed.
+
+Lemma read_sint_fuel le n s : read_sint le n s <> FOutOfFuel.
+Proof. unfold read_sint, read_bytes. destruct (take n s) as [[? ?]|]; discriminate. Qed.
+Lemma read_float_fuel le n s : read_float le n s <> FOutOfFuel.
+Proof. unfold read_float, read_bytes. destruct (take n s) as [[? ?]|]; discriminate. Qed.
+
+Definition widths_pos (w : widths) : Prop := (1 <= w_int w)%nat /\ (1 <= w_float w)%nat.
+
+Lemma read_vertex_spec le w dim s : widths_pos w ->
+  read_vertex le w dim s <> FOutOfFuel /\
+  forall x s1, read_vertex le w dim s = FOk (x, s1) -> (length s1 < length s)%nat.
+Proof.
+  intros [Hi Hf]. unfold read_vertex.
+  pose proof (read_items_fuel (read_float le (w_float w))
+    ltac:(intros s0 x s1 H; apply read_float_consumes in H; lia)
+    ltac:(intros s0; apply read_float_fuel) (S (length s)) dim s ltac:(lia)) as Hfuel.
+  destruct (read_items (S (length s)) dim (read_float le (w_float w)) s) as [[cs s1]| | |] eqn:E;
+    try (split; [discriminate|intros; discriminate]); [|congruence].
+  apply (read_items_le (read_float le (w_float w))
+    ltac:(intros s0 x s1' H; apply read_float_consumes in H; lia)) in E.
+  pose proof (read_sint_fuel le (w_int w) s1) as Hs.
+  destruct (read_sint le (w_int w) s1) as [[r s2]| | |] eqn:E2;
+    try (split; [discriminate|intros; discriminate]); [|congruence].
+  apply read_sint_consumes in E2. split; [discriminate|]. intros x s1' [= _ <-]. lia.
+Qed.
+
+Lemma read_node_spec le w s : widths_pos w ->
+  read_node le w s <> FOutOfFuel /\
+  forall x s1, read_node le w s = FOk (x, s1) -> (length s1 < length s)%nat.
+Proof.
+  intros [Hi Hf]. unfold read_node.
+  pose proof (read_sint_fuel le (w_int w) s) as Hs.
+  destruct (read_sint le (w_int w) s) as [[v r]| | |] eqn:E;
+    try (split; [discriminate|intros; discriminate]); [|congruence].
+  apply read_sint_consumes in E. destruct (as_usize v =? 0); (split; [discriminate|]).
+  - intros; discriminate.
+  - intros x s1 [= _ <-]. lia.
+Qed.
+
+Lemma read_element_spec le w npe s : widths_pos w ->
+  read_element le w npe s <> FOutOfFuel /\
+  forall x s1, read_element le w npe s = FOk (x, s1) -> (length s1 < length s)%nat.
+Proof.
+  intros Hw. unfold read_element.
+  pose proof (read_items_fuel (read_node le w)
+    ltac:(intros s0 x s1 H; now apply (read_node_spec le w s0 Hw) in H)
+    ltac:(intros s0; apply (read_node_spec le w s0 Hw)) (S (length s)) (N.of_nat npe) s ltac:(lia)) as Hfuel.
+  destruct (read_items (S (length s)) (N.of_nat npe) (read_node le w) s) as [[ns s1]| | |] eqn:E;
+    try (split; [discriminate|intros; discriminate]); [|congruence].
+  apply (read_items_le (read_node le w)
+    ltac:(intros s0 x s1' H; apply (read_node_spec le w s0 Hw) in H; lia)) in E.
+  pose proof (read_sint_fuel le (w_int w) s1) as Hs. destruct Hw as [Hi Hf].
+  destruct (read_sint le (w_int w) s1) as [[r s2]| | |] eqn:E2;
+    try (split; [discriminate|intros; discriminate]); [|congruence].
+  apply read_sint_consumes in E2. split; [discriminate|]. intros x s1' [= _ <-]. lia.
+Qed.
+
+Lemma parse_fields_fuel le w : widths_pos w ->
+  forall fuel m s, (length s < fuel)%nat -> parse_fields fuel le w m s <> FOutOfFuel.
+Proof.
+  intros Hw. induction fuel as [|f IH]; intros m s Hlen; [lia|].
+  cbn [parse_fields].
+  pose proof (read_sint_fuel le 4 s) as H0.
+  destruct (read_sint le 4 s) as [[code s1]| | |] eqn:E1; try discriminate; [|congruence].
+  apply read_sint_consumes in E1.
+  destruct (code =? code_END)%Z; [discriminate|].
+  destruct (code =? code_VERTEX)%Z.
+  - pose proof (read_sint_fuel le (w_pos w) s1) as H1.
+    destruct (read_sint le (w_pos w) s1) as [[p s2]| | |] eqn:E2; try discriminate; [|congruence].
+    apply read_sint_consumes in E2.
+    pose proof (read_sint_fuel le (w_int w) s2) as H2.
+    destruct (read_sint le (w_int w) s2) as [[cnt s3]| | |] eqn:E3; try discriminate; [|congruence].
+    apply read_sint_consumes in E3.
+    destruct (match cap8_check (as_usize cnt) (m_dim m) with Some p0 => Some p0 | None => cap8_check (as_usize cnt) 1 end);
+      [discriminate|].
+    pose proof (read_items_fuel (read_vertex le w (m_dim m))
+      ltac:(intros s0 x s1' H; now apply (read_vertex_spec le w (m_dim m) s0 Hw) in H)
+      ltac:(intros s0; apply (read_vertex_spec le w (m_dim m) s0 Hw))
+      (S (length s3)) (as_usize cnt) s3 ltac:(lia)) as Hf.
+    destruct (read_items (S (length s3)) (as_usize cnt) (read_vertex le w (m_dim m)) s3) as [[vs s4]| | |] eqn:E4;
+      try discriminate; [|congruence].
+    apply (read_items_le (read_vertex le w (m_dim m))
+      ltac:(intros s0 x s1' H; apply (read_vertex_spec le w (m_dim m) s0 Hw) in H; lia)) in E4.
+    apply IH. lia.
+  - destruct (etype_from_code code) as [ty|]; [|discriminate].
+    pose proof (read_sint_fuel le (w_pos w) s1) as H1.
+    destruct (read_sint le (w_pos w) s1) as [[p s2]| | |] eqn:E2; try discriminate; [|congruence].
+    apply read_sint_consumes in E2.
+    pose proof (read_sint_fuel le (w_int w) s2) as H2.
+    destruct (read_sint le (w_int w) s2) as [[cnt s3]| | |] eqn:E3; try discriminate; [|congruence].
+    apply read_sint_consumes in E3.
+    destruct (cap8_check (N.of_nat (etype_node_count ty)) (as_usize cnt)); [discriminate|].
+    pose proof (read_items_fuel (read_element le w (etype_node_count ty))
+      ltac:(intros s0 x s1' H; now apply (read_element_spec le w (etype_node_count ty) s0 Hw) in H)
+      ltac:(intros s0; apply (read_element_spec le w (etype_node_count ty) s0 Hw))
+      (S (length s3)) (as_usize cnt) s3 ltac:(lia)) as Hf.
+    destruct (read_items (S (length s3)) (as_usize cnt) (read_element le w (etype_node_count ty)) s3)
+      as [[es s4]| | |] eqn:E4; try discriminate; [|congruence].
+    apply (read_items_le (read_element le w (etype_node_count ty))
+      ltac:(intros s0 x s1' H; apply (read_element_spec le w (etype_node_count ty) s0 Hw) in H; lia)) in E4.
+    apply IH. lia.
+Qed.
+
+Lemma widths_of_version_pos v w : widths_of_version v = Some w -> widths_pos w.
+Proof.
+  unfold widths_of_version, widths_pos.
+  destruct (v =? 1)%Z; [intros [= <-]; cbn; lia|].
+  destruct (v =? 2)%Z; [intros [= <-]; cbn; lia|].
+  destruct (v =? 3)%Z; [intros [= <-]; cbn; lia|].
+  destruct (v =? 4)%Z; [intros [= <-]; cbn; lia|discriminate].
+Qed.
+
+Theorem parse_binary_terminates : forall s, parse_binary s <> FOutOfFuel.
+Proof.
+  intros s. unfold parse_binary.
+  destruct (take 4 s) as [[mg s1]|]; [|discriminate].
+  destruct (if le_dec mg =? 1 then Some true else if le_dec mg =? 2 ^ 24 then Some false else None) as [le|];
+    [|discriminate].
+  pose proof (read_sint_fuel le 4 s1) as H1.
+  destruct (read_sint le 4 s1) as [[version s2]| | |]; try discriminate; [|congruence].
+  destruct (widths_of_version version) as [w|] eqn:Ew; [|discriminate].
+  apply widths_of_version_pos in Ew.
+  pose proof (read_sint_fuel le 4 s2) as H2.
+  destruct (read_sint le 4 s2) as [[dcode s3]| | |]; try discriminate; [|congruence].
+  destruct (negb (dcode =? code_DIMENSION)%Z); [discriminate|].
+  pose proof (read_sint_fuel le (w_pos w) s3) as H3.
+  destruct (read_sint le (w_pos w) s3) as [[p s4]| | |]; try discriminate; [|congruence].
+  pose proof (read_sint_fuel le 4 s4) as H4.
+  destruct (read_sint le 4 s4) as [[d s5]| | |]; try discriminate; [|congruence].
+  apply parse_fields_fuel; [exact Ew|lia].
+Qed.
